@@ -203,14 +203,14 @@ fn frame_of(plan: &PipelinePlan, tx: &Tx) -> Option<(Vec<u8>, Option<world::Trut
             let (f, enc) = if truth.surface {
                 world::df17_surface_position(ac.icao, 5 + tx.sel % 4, truth.gs, truth.heading, truth.lat, truth.lon, tx.odd)
             } else {
-                world::df17_airborne_position(ac.icao, [9u8, 10, 11, 12, 13, 14, 15, 16, 17, 18, 20, 21, 22][tx.sel as usize % 13], truth.alt as i32, truth.lat, truth.lon, tx.odd)
+                world::df17_airborne_position_alt(ac.icao, [9u8, 10, 11, 12, 13, 14, 15, 16, 17, 18, 20, 21, 22][tx.sel as usize % 13], world::ac12(truth.alt as i32, world::uses_gillham(ac.icao, truth.alt as i32)), truth.lat, truth.lon, tx.odd)
             };
             if world::nl_margin(enc.rlat) < 1e-6 {
                 return None;
             }
             (f, Some(truth))
         }
-        9 => (world::df17(ac.icao, 5, (world::ac12_25ft(truth.alt as i32) as u64) << 36), None),
+        9 => (world::df17(ac.icao, 5, (world::ac12(truth.alt as i32, world::uses_gillham(ac.icao, truth.alt as i32)) as u64) << 36), None),
         1 => (world::df17_identification(ac.icao, 1 + tx.sel % 4, 3, &ac.callsign), None),
         2 => {
             let h = truth.heading.to_radians();
@@ -337,6 +337,7 @@ impl Scenario for Pipeline {
         let t_end = txs.last().map(|t| t.t_ns).unwrap_or(0);
         // receivers
         let n_rx = *rng.pick(&[1usize, 2, 2, 3]);
+        let behind_gateway = rng.chance(0.1);
         let mut receivers = Vec::new();
         let mut latency = Vec::new();
         let mut hear = Vec::new();
@@ -361,8 +362,14 @@ impl Scenario for Pipeline {
                 }
             };
             receivers.push(RxPlan {
-                source: match rng.below(5) {
+                source: match if behind_gateway { 5 } else { rng.below(8) } {
                     0 => format!("tcp://192.0.2.{}:30005", 10 + j),
+                    // the long forms of the configuration file (a string starting
+                    // with '{' is the table as the file gives it): receivers
+                    // forwarded to one gateway differ by their port only
+                    5 => format!("{{\"tcp\":{{\"address\":\"localhost\",\"port\":{},\"jump\":\"gw.example\"}}}}", 30005 + j),
+                    6 => format!("{{\"tcp\":{{\"address\":\"192.0.2.9\",\"port\":{}}}}}", 10003 + j),
+                    7 => format!("{{\"websocket\":{{\"url\":\"ws://localhost:9876/{}\",\"jump\":\"gw.example\"}}}}", 1234 + j),
                     1 => format!("tcp://192.0.2.9:{}", 10003 + j),
                     2 => format!("udp://0.0.0.0:{}", 1234 + j),
                     // several channels of one relay: same host and port, the path differs
@@ -891,7 +898,12 @@ pub fn execute(plan: &PipelinePlan, prop: &'static str) -> Outcome<PipelinePlan>
     for (j, rp) in plan.receivers.iter().enumerate() {
         use std::str::FromStr;
         let text = if rp.source.is_empty() { format!("tcp://192.0.2.{}:30005", 10 + j) } else { rp.source.clone() };
-        let mut source = match crate::source::Source::from_str(&text) {
+        let parsed = if text.starts_with('{') {
+            serde_json::from_str::<crate::source::Source>(&text).map_err(|e| e.to_string())
+        } else {
+            crate::source::Source::from_str(&text).map_err(|e| e.to_string())
+        };
+        let mut source = match parsed {
             Ok(s) => s,
             Err(e) => {
                 out.harness_error = Some(format!("source {} rejected: {}", text, e));
